@@ -392,6 +392,13 @@ func (c *UConn) handshakeContext(ctx context.Context) (ret error) {
 	if c.isClient {
 		err := c.BuildHandshakeState()
 		if err != nil {
+			if c.quic != nil {
+				// UQUICConn.Start / HandleData / Close wait on these channels: record
+				// the failure and release them, as the end of this function does.
+				c.handshakeErr = err
+				close(c.quic.blockedc)
+				close(c.quic.signalc)
+			}
 			return err
 		}
 	}
